@@ -339,18 +339,22 @@ def loadWS (w : WS) : Res (WS × Sheet) :=
     | .panic => .panic
     | .unmodelled => .unmodelled
 
-/-- sheet.go `workSheetWriter` for one part -/
-def saveWS (w : WS) : Res WS :=
+/-- sheet.go `workSheetWriter` for one part; `redensify` says whether a worksheet
+that stays cached gets `checkRow()` after it was trimmed and marshalled -/
+def saveWSWith (redensify : Bool) (w : WS) : Res WS :=
   match w.cache with
   | none => .ok w
   | some s =>
     let t := trimRow s
     if w.checked then .ok ⟨none, false, some t.rows⟩
-    else if Facts.C02.redensifyCached then
+    else if redensify then
       match checkRow t with
-      | (s', .panic) => let _ := s'; .panic
+      | (_, .panic) => .panic
       | (s', _) => .ok ⟨some s', false, some t.rows⟩
     else .ok ⟨some t, false, some t.rows⟩
+
+/-- the code as it is now (regenerated fact) -/
+def saveWS (w : WS) : Res WS := saveWSWith Facts.C02.redensifyCached w
 
 def saveAll : List WS → Res (List WS)
   | [] => .ok []
